@@ -332,7 +332,7 @@ def run_rule(ctx, rid, cache=None, views=True):
     if cache is not None and rid in cache:
         return cache[rid]
     R = _apply(ctx, rid)
-    if R.violations and views and rid not in NO_VIEW_RULES and not getattr(ctx, "view", None):
+    if R.violations and views and rid not in NO_VIEW_RULES and not getattr(ctx, "view", None) and not os.environ.get("VERIF_NOVIEWS"):
         import inline
         remaining = list(R.violations)
         discharged = []
